@@ -139,7 +139,11 @@ type ifdReader struct {
 	tiffHeaderOffset uint32
 	firstIfdOffset   uint32
 	exifLength       uint32
+	ifdLimit         uint32 // length of the value that holds the directory being read (0: not limited)
 }
+
+// errIfdLimit is returned for a directory that does not fit the value it lies in.
+var errIfdLimit = imagetype.ErrDataLength
 
 func (ir *ifdReader) readIfdHeader(ifd ifds.Ifd) (err error) {
 	loglevelInfo := ir.logLevelInfo()
@@ -149,6 +153,13 @@ func (ir *ifdReader) readIfdHeader(ifd ifds.Ifd) (err error) {
 		// Log Ifd Reading error
 		ir.logError(err).Object("ifd", ifd).Uint32("readerOffset", ir.po).Msgf("error tag count: %d for %s", tagCount, ifd.String())
 		return err
+	}
+
+	if ir.ifdLimit != 0 && 2+12*uint32(tagCount) > ir.ifdLimit {
+		if ir.logLevelError() {
+			ir.logError(errIfdLimit).Object("ifd", ifd).Uint16("tagCount", tagCount).Send()
+		}
+		return errIfdLimit
 	}
 
 	if loglevelInfo { // Log Ifd Info
@@ -283,7 +294,13 @@ func (ir *ifdReader) readSubIfds(t Tag) {
 func (ir *ifdReader) readMakerNotes(t Tag) {
 	switch ir.Exif.CameraMake {
 	case ifds.Canon:
-		if err := ir.readIfdHeader(t.childIfd()); err != nil {
+		// The note is a directory and lies inside the tag's value (whose length
+		// in bytes is the unit count, see below): a count that says more is not
+		// followed across the values behind the note.
+		ir.ifdLimit = t.UnitCount
+		err := ir.readIfdHeader(t.childIfd())
+		ir.ifdLimit = 0
+		if err != nil {
 			ir.logError(err).Send()
 		}
 	case ifds.Nikon:
